@@ -74,6 +74,10 @@ func (g *gen) Generate(typs []types.Type) error {
 }
 
 func canEqual(tt types.Type) bool {
+	if named, isNamed := types.Unalias(tt).(*types.Named); isNamed && hasEqualMethod(named) {
+		// the Equal method decides whether an item is equal to an element, which is what the derived equal function calls.
+		return false
+	}
 	t := tt.Underlying()
 	switch typ := t.(type) {
 	case *types.Basic:
@@ -89,6 +93,24 @@ func canEqual(tt types.Type) bool {
 		return true
 	case *types.Array:
 		return canEqual(typ.Elem())
+	}
+	return false
+}
+
+// hasEqualMethod returns whether the type has a method: Equal(T) bool
+func hasEqualMethod(typ *types.Named) bool {
+	for i := 0; i < typ.NumMethods(); i++ {
+		meth := typ.Method(i)
+		if meth.Name() != "Equal" {
+			continue
+		}
+		sig, ok := meth.Type().(*types.Signature)
+		if !ok || sig.Params().Len() != 1 || sig.Results().Len() != 1 {
+			continue
+		}
+		if b, ok := sig.Results().At(0).Type().(*types.Basic); ok && b.Kind() == types.Bool {
+			return true
+		}
 	}
 	return false
 }
